@@ -42,7 +42,20 @@ func (c *FnCtx) peerTainted(v ssa.Value, depth int, seen map[ssa.Value]bool) boo
 		return c.peerTainted(x.Tuple, depth+1, seen)
 	case *ssa.Call:
 		ci := c.resolveCallee(&x.Call)
-		return peerFuncs[ci.name]
+		if peerFuncs[ci.name] {
+			return true
+		}
+		// package-local helpers: a number computed from peer data (minInt64(num, 1024)) or handed on
+		// from a receive function (recvFileNum, recvFileSize) is peer data too
+		if fn := x.Call.StaticCallee(); fn != nil && fn.Pkg == c.g.pkg && fn.Blocks != nil {
+			for _, a := range x.Call.Args {
+				if isInteger(a.Type()) && c.peerTainted(a, depth+1, seen) {
+					return true
+				}
+			}
+			return c.returnsPeer(fn, depth+1)
+		}
+		return false
 	case *ssa.UnOp:
 		if fa, ok := x.X.(*ssa.FieldAddr); ok {
 			st := fa.X.Type().Underlying().(*types.Pointer).Elem()
@@ -54,6 +67,26 @@ func (c *FnCtx) peerTainted(v ssa.Value, depth int, seen map[ssa.Value]bool) boo
 	case *ssa.Field:
 		if n, ok := x.X.Type().(*types.Named); ok && peerStructs[n.Obj().Name()] {
 			return true
+		}
+	}
+	return false
+}
+
+// returnsPeer: some returned integer of fn derives from peer data (judged inside fn, same rules).
+func (c *FnCtx) returnsPeer(fn *ssa.Function, depth int) bool {
+	if depth > 6 {
+		return false
+	}
+	cc := &FnCtx{g: c.g, fn: fn}
+	for _, b := range fn.Blocks {
+		for _, ins := range b.Instrs {
+			if r, ok := ins.(*ssa.Return); ok {
+				for _, v := range r.Results {
+					if isInteger(v.Type()) && cc.peerTainted(v, depth, map[ssa.Value]bool{}) {
+						return true
+					}
+				}
+			}
 		}
 	}
 	return false
